@@ -178,6 +178,21 @@ fn ref_der(limbs: &[u64]) -> (Vec<u8>, Vec<u8>) {
     (content, out)
 }
 
+/// DER TLV with a definite length in the shortest form.
+fn der_tlv(tag: u8, content: &[u8]) -> Vec<u8> {
+    let mut out = vec![tag];
+    let n = content.len();
+    if n < 0x80 {
+        out.push(n as u8);
+    } else {
+        let l = be_min(&[n as u64]);
+        out.push(0x80 | l.len() as u8);
+        out.extend_from_slice(&l);
+    }
+    out.extend_from_slice(content);
+    out
+}
+
 /// Ethereum JSON "quantity": 0x-prefixed hex without leading zeros, "0x0".
 fn ref_quantity(limbs: &[u64]) -> String {
     let be = be_min(limbs);
@@ -852,6 +867,7 @@ fn op_der<const B: usize, const L: usize>(m: &mut Mon, limbs: &[u64]) {
         let r = m.must(|| <Uint<B, L> as TryFrom<_>>::try_from(int));
         decoded(m, "der.int.roundtrip", r, limbs);
     }
+    der_containers::<B, L>(m, limbs);
     if let Some(du) = m.must(|| DerUint::from(&v)) {
         // the der crate's unsigned view: magnitude without the sign octet
         let mut mag = be_min(limbs);
@@ -865,6 +881,98 @@ fn op_der<const B: usize, const L: usize>(m: &mut Mon, limbs: &[u64]) {
         decoded(m, "der.uintref.roundtrip", r, limbs);
         let r = m.must(|| <Uint<B, L> as TryFrom<_>>::try_from(du));
         decoded(m, "der.uint.roundtrip", r, limbs);
+    }
+}
+
+/// The value next to relatives derived from it (limb order reversed, low limb complemented, low and high limb
+/// swapped, top byte moved down) inside the DER containers: SEQUENCE OF keeps the order, SET OF is sorted by the
+/// elements' encodings (X.690 11.6), which is what the integration's `ValueOrd`/`DerOrd` impls have to deliver.
+fn der_containers<const B: usize, const L: usize>(m: &mut Mon, limbs: &[u64]) {
+    use der::{asn1::SetOfVec, Decode, DerOrd, Encode, ValueOrd};
+    if L == 0 {
+        return;
+    }
+    let mut rel: Vec<Vec<u64>> = vec![limbs.to_vec()];
+    let mut t = limbs.to_vec();
+    t.reverse();
+    rel.push(gen::canon(t, B));
+    let mut t = limbs.to_vec();
+    t[0] = !t[0];
+    rel.push(gen::canon(t, B));
+    let mut t = limbs.to_vec();
+    t.swap(0, L - 1);
+    rel.push(gen::canon(t, B));
+    let mut t = limbs.to_vec();
+    t[0] = t[L - 1] >> 8 | t[0] << 56;
+    rel.push(gen::canon(t, B));
+    rel.push(gen::zero(B));
+    let mut uniq: Vec<Vec<u64>> = vec![];
+    for r in rel {
+        if !uniq.contains(&r) {
+            uniq.push(r);
+        }
+    }
+    let vals: Vec<Uint<B, L>> = uniq.iter().map(|l| uint(l)).collect();
+    let encs: Vec<(Vec<u8>, Vec<u8>)> = uniq.iter().map(|l| ref_der(l)).collect();
+    // pairwise order of the encodings
+    for i in 0..vals.len() {
+        for j in 0..vals.len() {
+            let want = encs[i].1.cmp(&encs[j].1);
+            match must_k(m, "der.der_cmp", || vals[i].der_cmp(&vals[j])) {
+                Some(Ok(o)) => {
+                    m.check(o == want, "der.der_cmp", || format!("{want:?} (order of the DER encodings {} vs {})", hexs(&encs[i].1), hexs(&encs[j].1)), || format!("{o:?}"));
+                }
+                Some(Err(e)) => m.fail("der.der_cmp", "Ok", &format!("Err({e:?})")),
+                None => {}
+            }
+            if encs[i].0.len() == encs[j].0.len() {
+                let want = encs[i].0.cmp(&encs[j].0);
+                match must_k(m, "der.value_cmp", || vals[i].value_cmp(&vals[j])) {
+                    Some(Ok(o)) => {
+                        m.check(o == want, "der.value_cmp", || format!("{want:?} (order of the content octets {} vs {})", hexs(&encs[i].0), hexs(&encs[j].0)), || format!("{o:?}"));
+                    }
+                    Some(Err(e)) => m.fail("der.value_cmp", "Ok", &format!("Err({e:?})")),
+                    None => {}
+                }
+            }
+        }
+    }
+    // SEQUENCE OF INTEGER
+    let seq_want = der_tlv(0x30, &encs.iter().flat_map(|e| e.1.clone()).collect::<Vec<u8>>());
+    let r = must_k(m, "der.seq.encode", || vals.to_der());
+    if let Some(b) = encoded(m, "der.seq.encode", r) {
+        if bytes_eq(m, "der.seq.bytes", &b, &seq_want) {
+            match must_k(m, "der.seq.decode", || Vec::<Uint<B, L>>::from_der(&b)) {
+                Some(Ok(back)) => {
+                    m.check(back == vals, "der.seq.roundtrip", || format!("{vals:?}"), || format!("{back:?}"));
+                }
+                Some(Err(e)) => m.fail("der.seq.roundtrip", "Ok", &format!("Err({e:?})")),
+                None => {}
+            }
+        }
+    }
+    // SET OF INTEGER: elements in ascending order of their encodings
+    let mut sorted: Vec<usize> = (0..vals.len()).collect();
+    sorted.sort_by(|a, b| encs[*a].1.cmp(&encs[*b].1));
+    let set_want = der_tlv(0x31, &sorted.iter().flat_map(|i| encs[*i].1.clone()).collect::<Vec<u8>>());
+    let sorted_vals: Vec<Uint<B, L>> = sorted.iter().map(|i| vals[*i]).collect();
+    match must_k(m, "der.set.build", || SetOfVec::try_from(vals.clone())) {
+        Some(Ok(set)) => {
+            let r = must_k(m, "der.set.encode", || set.to_der());
+            if let Some(b) = encoded(m, "der.set.encode", r) {
+                bytes_eq(m, "der.set.bytes", &b, &set_want);
+            }
+        }
+        Some(Err(e)) => m.fail("der.set.build", "Ok", &format!("Err({e:?})")),
+        None => {}
+    }
+    match must_k(m, "der.set.decode", || SetOfVec::<Uint<B, L>>::from_der(&set_want)) {
+        Some(Ok(set)) => {
+            let back = set.into_vec();
+            m.check(back == sorted_vals, "der.set.roundtrip", || format!("{sorted_vals:?}"), || format!("{back:?}"));
+        }
+        Some(Err(e)) => m.fail("der.set.decode", "Ok (canonical SET OF INTEGER)", &format!("Err({e:?})")),
+        None => {}
     }
 }
 
